@@ -147,7 +147,8 @@ def run_extra(ctx):
                 syns.append(np.array([rng.randint(0, 1) for _ in range(m)], dtype=int))
             for D in decs:
                 for syn in syns:
-                    chi = rng.choice([1, 2, 4, None])
+                    # exact contraction (chi=None) is exponential (colour size 7: > 50 GB): only where measured cheap
+                    chi = rng.choice([1, 2, 4] + ([None] if zoo.none_chi_ok(D.__name__, (CODE_NAME[fam], sz)) else []))
                     mode = rng.choice('cra')
                     p = rng.choice([0.01, 0.1, 0.3])
                     dec = D(chi) if fam == 'color' else D(chi, mode)
